@@ -279,7 +279,9 @@ def _generate(api):
     tb = re.sub(r"\s+", " ", body)
     trim_shape = (r"\{ let content_area = tree\.root\(\)\.layer_bounding_box\(\); "
                   r"let limit = tiny_skia::IntRect::from_xywh\(0, 0, pixmap\.width\(\), pixmap\.height\(\)\)\.unwrap\(\); "
-                  r"let content_area = content_area\.transform\(transform\)\?\.to_int_rect\(\); "
+                  r"let content_area = content_area\.transform\(transform\)\?; "
+                  r"let content_area = tiny_skia::IntRect::from_xywh\( content_area\.x\(\)\.floor\(\) as i32, content_area\.y\(\)\.floor\(\) as i32, "
+                  r"std::cmp::max\(1, content_area\.width\(\)\.ceil\(\) as u32\), std::cmp::max\(1, content_area\.height\(\)\.ceil\(\) as u32\), \)\?; "
                   r"let content_area = fit_to_rect\(content_area, limit\)\?; "
                   r"let content_area = tiny_skia::IntRect::from_xywh\( content_area\.x\(\), content_area\.y\(\), content_area\.width\(\), content_area\.height\(\), \)\?; "
                   r"pixmap\.clone_rect\(content_area\) \}")
@@ -290,6 +292,15 @@ def _generate(api):
     L.append("Definition c20_trim_fallback_ok : bool := %s.   (* render_svg: trim_pixmap(tree, ts, &pixmap).unwrap_or(pixmap) *)"
              % ('true' if re.search(r"trim_pixmap\(\s*tree\s*,\s*ts\s*,\s*&pixmap\s*\)\s*\.unwrap_or\(\s*pixmap\s*\)", rbody) else 'false'))
 
+    # --export-area-page: draw_pixmap only when the offset box fits i32; Pixmap::new results are checked with `?`
+    rb = re.sub(r"\s+", " ", rbody)
+    guard = re.search(r"let \(x, y\) = \(bbox\.x\(\) as i32, bbox\.y\(\) as i32\); if tiny_skia::IntRect::from_xywh\(x, y, pixmap\.width\(\), "
+                      r"pixmap\.height\(\)\)\.is_some\(\) \{ page_pixmap\.draw_pixmap\( x, y,", rb)
+    n_draw = len(re.findall(r"\.draw_pixmap\(", rb))
+    n_new = len(re.findall(r"Pixmap::new\(", rb))
+    n_new_checked = len(re.findall(r"Pixmap::new\(size\.width\(\), size\.height\(\)\) \.ok_or_else\(\|\| \"target size is too large\"\.to_string\(\)\)\?", rb))
+    L.append("Definition c20_draw_guard_ok : bool := %s.   (* render_svg: %d draw_pixmap call(s) guarded by IntRect::from_xywh(..).is_some(); %d of %d Pixmap::new checked with `?` *)"
+             % ('true' if (guard and n_draw == 1 and n_new == n_new_checked and n_new >= 1) else 'false', n_draw, n_new_checked, n_new))
     # ---------------------------------------------------------------- process: order of the steps
     params, ret, pbody = rs.find_fn(src, 'process')
     MARK = [('SParseArgs', r"\bparse_args\s*\("), ('SRead', r"std::fs::read\s*\("), ('SReadStdin', r"read_to_end\s*\("),
